@@ -95,7 +95,8 @@ for ph in "${phases[@]}"; do
     # the checker died before writing a verdict: panic in serf => violation, else inconclusive
     mkdir -p /verif/replays/$ID
     crash=/verif/replays/$ID/crash-$VERIF_SEED-$TIER-$ph.log
-    if grep -q -E '^(panic:|fatal error:)' "$OUT/log.$ph" && grep -A60 -E '^(panic:|fatal error:)' "$OUT/log.$ph" | grep -q 'github.com/hashicorp/serf/'; then
+    # only the crashing goroutine's own stack (first stack block after the panic line) decides
+    if grep -q -E '^(panic:|fatal error:)' "$OUT/log.$ph" && awk '/^(panic:|fatal error:)/{on=1} on&&/^goroutine /{g++} on&&g==1{print} on&&g==1&&/^$/{exit}' "$OUT/log.$ph" | grep -v 'verif/harness' | grep -q 'github.com/hashicorp/serf/'; then
       tail -c 200000 "$OUT/log.$ph" > "$crash"
       echo "VIOLATION property=$ID replay=$crash"
       echo "  detail: checker process crashed inside serf code: $(grep -m1 -E '^(panic:|fatal error:)' "$OUT/log.$ph")"
